@@ -123,6 +123,8 @@ type round struct {
 	params   []param
 	rfmt     []int16
 	named    string
+	poids    []uint32    // explicit parameter type OIDs of the Parse (nil = none declared)
+	prefix   *fakepg.Ext // a row-limited Execute of another statement pipelined in front, under the same Sync
 }
 
 func (cs *caseState) send(s *Sess, rd round) ([]*fakepg.Result, error) {
@@ -131,7 +133,30 @@ func (cs *caseState) send(s *Sess, rd round) ([]*fakepg.Result, error) {
 		return s.C.Simple(sql)
 	}
 	vals, fm := extParams(rd.params)
-	return s.C.Extended(fakepg.Ext{Parse: true, Name: rd.named, SQL: sql, Bind: true, Params: vals, PFmt: fm, RFmt: rd.rfmt, DescribeP: cs.rd.Bool(), Execute: true})
+	main := fakepg.Ext{Parse: true, Name: rd.named, SQL: sql, ParamOIDs: rd.poids, Bind: true, Params: vals, PFmt: fm, RFmt: rd.rfmt, DescribeP: cs.rd.Bool(), Execute: true}
+	if rd.prefix != nil {
+		return s.C.Pipeline([]fakepg.Ext{*rd.prefix, main})
+	}
+	return s.C.Extended(main)
+}
+
+// declareOIDs picks explicit parameter type OIDs for a Parse: what a driver that knows its argument types sends.
+func (cs *caseState) declareOIDs(params []param) []uint32 {
+	if len(params) == 0 || !cs.rd.Chance(40) {
+		return nil
+	}
+	out := make([]uint32, len(params))
+	for i, p := range params {
+		switch {
+		case cs.rd.Chance(15):
+			out[i] = 0 // unspecified
+		case p.bin:
+			out[i] = 17
+		default:
+			out[i] = 25
+		}
+	}
+	return out
 }
 
 // perms enumerates the orders in which the protected parameters may have drawn randomness.
@@ -165,6 +190,9 @@ func (cs *caseState) correspond(rd round, rnd []byte) {
 	proto := "q"
 	if rd.extended {
 		proto = "p"
+		if rd.poids != nil {
+			proto = "o" // Parse with explicit parameter type OIDs
+		}
 	}
 	r.Do(fmt.Sprintf("C04.stmt %s %s %s %s %s", proto, sch, kvToks(cs.kv), tok, core.Hex(rnd[:min(len(rnd), 2048)])))
 	if rd.extended && len(rd.params) > 0 {
@@ -251,9 +279,14 @@ func run(r *core.Run) {
 	valueOps(r)
 	pendingOps(r)
 	mysqlOps(r)
+	formsOps(r)
 	n := r.N(40, 1500)
 	for i := 0; i < n; i++ {
 		sessionCase(r, i)
+	}
+	m := r.N(40, 1500)
+	for i := 0; i < m; i++ {
+		mySessionCase(r, i)
 	}
 }
 
@@ -333,6 +366,7 @@ func (cs *caseState) write(st *Stmt, plans [][]cellPlan, covered bool, ext bool,
 	rd := round{st: st, extended: ext, params: params}
 	if ext {
 		rd.named = core.Pick(cs.rd, []string{"", "s1", "s2"})
+		rd.poids = cs.declareOIDs(params)
 		if len(st.Ret) > 0 && cs.rd.Bool() {
 			rd.rfmt = []int16{int16(cs.rd.Intn(2))}
 		}
@@ -607,10 +641,29 @@ func (cs *caseState) doSelectStmt(t *Tab, st *Stmt, ext bool, params []param, bo
 			}
 		}
 	}
+	// a batch under ONE Sync: a row-limited Execute of another statement (its portal stays suspended), then this SELECT
+	prefixRows := 0
+	if ext && t.Configured && rd.Chance(35) {
+		for _, tp := range cs.sch {
+			if len(cs.shadow[tp.Name]) >= 2 {
+				prefixRows = len(cs.shadow[tp.Name])
+				rnd.prefix = &fakepg.Ext{Parse: true, Name: "lim", SQL: "select id from " + tp.Name, Bind: true, Portal: "plim", Execute: true, MaxRows: 1, NoSync: true}
+				break
+			}
+		}
+	}
+	if ext {
+		rnd.poids = cs.declareOIDs(params)
+	}
 	sent0 := len(cs.w.DB.Sent)
 	cin0, cout0 := cs.a.C.Marks()
 	din0, dout0 := cs.w.DB.In.Len(), cs.w.DB.Out.Len()
 	rs, err := cs.send(cs.a, rnd)
+	if err == nil && rnd.prefix != nil {
+		if !r.Check(len(rs) >= 2 && rs[0].Suspended && len(rs[0].Rows) == 1 && rs[0].Rows[0][0] != nil, "session-broken", fmt.Sprintf("row-limited Execute in front of %q: the portal was not reported suspended after one row (%v)", st.SQL(), rs)) {
+			return
+		}
+	}
 	if err != nil || len(rs) == 0 || rs[len(rs)-1].Err != "" {
 		r.Fail("session-broken", fmt.Sprintf("SELECT %q failed through the proxy: %v %v (panic: %v)", st.SQL(), err, rs, cs.a.Panic))
 		return
@@ -619,6 +672,10 @@ func (cs *caseState) doSelectStmt(t *Tab, st *Stmt, ext bool, params []param, bo
 	res := rs[len(rs)-1]
 	// rows: model of the delivery of every DataRow the database sent
 	sentRows := cs.w.DB.Sent[sent0:]
+	if rnd.prefix != nil {
+		// the fake database evaluates the whole row-limited statement when its portal is first executed
+		sentRows = sentRows[min(prefixRows, len(sentRows)):]
+	}
 	fm := fmtsTok(rnd.rfmt)
 	for i, row := range sentRows {
 		if i >= len(res.Rows) {
@@ -642,7 +699,13 @@ func (cs *caseState) doSelectStmt(t *Tab, st *Stmt, ext bool, params []param, bo
 	}
 	own := cs.itemsOf(t, cols)
 	cs.lastItems = own
+	if rnd.prefix != nil {
+		// the DataRow of the suspended portal made the proxy remember the settings of THAT statement (one column
+		// without setting) before the RowDescription of this one arrived: known finding rowdescription-stale-settings
+		cs.lastItems = []*Setting{nil}
+	}
 	cs.checkRowDescription(t, cols, res, own, st.SQL())
+	cs.lastItems = own
 	cs.checkOwnerRowsFmt(t, st.Alias, st.Ret, res, expect, st.SQL(), rnd.rfmt)
 	// unconfigured table: both directions byte-identical
 	if !t.Configured {
